@@ -47,7 +47,7 @@ Qed.
 (* safety                                                                                 *)
 
 Lemma sweep_items_seized : forall g app items id,
-  In id (fst (sweep_items g app items)) ->
+  In id (sweep_items g app items) ->
   exists p, In p items /\ p_id p = id /\ eff_verdict g app p = VSeize.
 Proof.
   induction items as [|p rest IH]; intros id H; cbn in H; [contradiction|].
@@ -56,12 +56,8 @@ Proof.
     + exists p. split; [left; reflexivity|]. split; [reflexivity|exact E].
     + destruct (IH id H) as (q & Hq & Hid & Hv). exists q. split; [right; exact Hq|]. split; assumption.
   - destruct (IH id H) as (q & Hq & Hid & Hv). exists q. split; [right; exact Hq|]. split; assumption.
-  - destruct (wrapped g).
-    + destruct (IH id H) as (q & Hq & Hid & Hv). exists q. split; [right; exact Hq|]. split; assumption.
-    + cbn in H. contradiction.
-  - destruct (wrapped g).
-    + destruct (IH id H) as (q & Hq & Hid & Hv). exists q. split; [right; exact Hq|]. split; assumption.
-    + cbn in H. contradiction.
+  - destruct (IH id H) as (q & Hq & Hid & Hv). exists q. split; [right; exact Hq|]. split; assumption.
+  - destruct (IH id H) as (q & Hq & Hid & Hv). exists q. split; [right; exact Hq|]. split; assumption.
 Qed.
 
 Lemma in_firstn {A} : forall n (l : list A) x, In x (firstn n l) -> In x l.
@@ -84,14 +80,14 @@ Proof. intros g app H. destruct g; cbn in H; try discriminate. destruct app; dis
 
 (* every id a sweep seizes belongs to a position of the list whose own verdict is VSeize, and
    (V1) whose app is the app being swept *)
-Lemma sweep_core_seized : forall g app l cap len off batch sz l' o ab id,
-  sweep_core g app l cap len off batch = Ok (sz, l', o, ab) -> In id sz ->
+Lemma sweep_core_seized : forall g app l cap len off batch sz l' o id,
+  sweep_core g app l cap len off batch = Ok (sz, l', o) -> In id sz ->
   exists p, In p l /\ p_id p = id /\ p_v p = VSeize /\ (g = GV1 -> p_app p = app).
 Proof.
-  intros g app l cap len off batch sz l' o ab id H Hin. unfold sweep_core in H.
+  intros g app l cap len off batch sz l' o id H Hin. unfold sweep_core in H.
   destruct (go_slice l cap _ _) as [items|] eqn:Eg; [|discriminate].
-  assert (Hs : In id (fst (sweep_items g app items))).
-  { destruct (snd (sweep_items g app items)); try discriminate; injection H as <- _ _ _; exact Hin. }
+  assert (Hs : In id (sweep_items g app items)).
+  { injection H as <- _ _; exact Hin. }
   destruct (sweep_items_seized _ _ _ _ Hs) as (p & Hp & Hid & Hv).
   destruct (go_slice_in _ _ _ _ _ _ Eg Hp) as [Hl|Hz].
   - exists p. split; [exact Hl|]. split; [exact Hid|].
@@ -102,10 +98,10 @@ Qed.
 
 Lemma sweep_one_inv : forall g app l cap counter off batch r,
   sweep_one g app l cap counter off batch = Ok r ->
-  sweep_core g app l cap (int_of_u64 counter) off batch = Ok (r_seized r, r_list r, r_off r, r_aborted r).
+  sweep_core g app l cap (int_of_u64 counter) off batch = Ok (r_seized r, r_list r, r_off r).
 Proof.
   intros g app l cap counter off batch r H. unfold sweep_one in H.
-  destruct (sweep_core g app l cap (int_of_u64 counter) off batch) as [[[[sz l'] o] ab]| |]; try discriminate.
+  destruct (sweep_core g app l cap (int_of_u64 counter) off batch) as [[[sz l'] o]| |]; try discriminate.
   injection H as <-. reflexivity.
 Qed.
 
@@ -127,8 +123,7 @@ Lemma sweep_one_list_incl : forall app l cap counter off batch r p,
 Proof.
   intros app l cap counter off batch r p H Hin. apply sweep_one_inv in H. unfold sweep_core in H.
   destruct (go_slice l cap _ _) as [items|]; [|discriminate].
-  destruct (snd (sweep_items GV1 app items)); try discriminate; injection H as _ H _ _; rewrite <- H in Hin;
-    exact (after_seize_incl GV1 _ _ _ eq_refl Hin).
+  injection H as _ H _; rewrite <- H in Hin; exact (after_seize_incl GV1 _ _ _ eq_refl Hin).
 Qed.
 
 Lemma sweep_v1_seized : forall capf batch apps st acc ids st' id,
@@ -335,7 +330,7 @@ Lemma zlen_map {A B} (f : A -> B) l : zlen (map f l) = zlen l.
 Proof. unfold zlen. rewrite map_length. reflexivity. Qed.
 
 (* ---- what one block does to the id list ---- *)
-Lemma sweep_items_lpos : forall u w, sweep_items GV2 0 (map (lpos u) w) = (filter u w, Done).
+Lemma sweep_items_lpos : forall u w, sweep_items GV2 0 (map (lpos u) w) = filter u w.
 Proof.
   induction w as [|a w IH]; [reflexivity|].
   cbn [map sweep_items eff_verdict lpos p_v p_id filter]. destruct (u a); rewrite IH; reflexivity.
@@ -366,7 +361,7 @@ Proof.
   replace ((0 <=? fst se) && (fst se <=? snd se) && (snd se <=? zlen ids)) with true by lia.
   rewrite zlen_map. replace (zlen ids - zlen ids) with 0 by lia. cbn [Z.to_nat repeat].
   rewrite app_nil_r. rewrite skipn_map. rewrite firstn_map.
-  rewrite sweep_items_lpos. cbn [fst snd]. rewrite map_id_after_seize. reflexivity.
+  rewrite sweep_items_lpos. rewrite map_id_after_seize. reflexivity.
 Qed.
 
 (* ---- indices ---- *)
@@ -694,7 +689,7 @@ Qed.
 
 (* the block of the schedule IS the keepers' sweep (V2 LiquidateVaults; V1 the sweep of one app over
    that app's positions) with counter = capacity = length, as long as the length fits an int64 *)
-Lemma sweep_items_lpos_v1 : forall u w, sweep_items GV1 0 (map (lpos u) w) = (filter u w, Done).
+Lemma sweep_items_lpos_v1 : forall u w, sweep_items GV1 0 (map (lpos u) w) = filter u w.
 Proof.
   induction w as [|a w IH]; [reflexivity|].
   cbn [map sweep_items eff_verdict lpos p_v p_id p_app filter]. rewrite Z.eqb_refl.
@@ -705,7 +700,7 @@ Lemma sweep_core_lpos : forall g ids off b u, (g = GV1 \/ g = GV2) ->
   sweep_core g 0 (map (lpos u) ids) (zlen ids) (zlen ids) off b =
     Ok (filter u (window_of ids off b),
         after_seize g (filter u (window_of ids off b)) (map (lpos u) ids),
-        snd (sweep_window (zlen ids) off b), false).
+        snd (sweep_window (zlen ids) off b)).
 Proof.
   intros g ids off b u Hg. unfold sweep_core, window_of.
   destruct (sweep_window_ok_lem (zlen ids) off b (zlen_nonneg ids)) as ((H1 & H2) & H3).
@@ -719,14 +714,13 @@ Qed.
 
 Lemma block_is_sweep_one : forall g ids off b u, (g = GV1 \/ g = GV2) -> zlen ids < two63 ->
   exists r, sweep_one g 0 (map (lpos u) ids) (zlen ids) (zlen ids) off b = Ok r /\
-            block_ids ids off b u = (r_seized r, map p_id (r_list r), r_off r) /\
-            r_aborted r = false.
+            block_ids ids off b u = (r_seized r, map p_id (r_list r), r_off r).
 Proof.
   intros g ids off b u Hg Hlt.
   assert (Hint : int_of_u64 (zlen ids) = zlen ids).
   { unfold int_of_u64. pose proof (zlen_nonneg ids). replace (zlen ids >=? two63) with false by lia. reflexivity. }
   unfold sweep_one. rewrite Hint, (sweep_core_lpos g ids off b u Hg).
-  eexists. split; [reflexivity|]. cbn [r_seized r_list r_off r_aborted]. split; [|reflexivity].
+  eexists. split; [reflexivity|]. cbn [r_seized r_list r_off].
   rewrite block_ids_eq. f_equal. f_equal.
   assert (after_seize g (filter u (window_of ids off b)) (map (lpos u) ids) =
           after_seize GV2 (filter u (window_of ids off b)) (map (lpos u) ids)) as ->
@@ -760,30 +754,3 @@ Proof.
   split; [repeat constructor|]. vm_compute. repeat split; auto; try (intros H; intuition discriminate).
 Qed.
 
-(* V2 as deployed (vault sweep + borrow sweep sharing offset key 0): 2 vaults, batch 1, the second
-   one unsafe with every liveness hypothesis met: the hook is a fixed point, nothing is ever seized *)
-Definition v2_starved : v2_state := mkV2 [mkPos 1 0 VKeep; mkPos 2 0 VSeize] 2 0 [].
-
-Lemma live_v2_refuted : forall k, run_v2 (fun n => n) 1 k v2_starved = Ok v2_starved.
-Proof.
-  induction k as [|k IH]; [reflexivity|]. cbn [run_v2].
-  replace (sweep_v2 (fun n => n) 1 v2_starved) with (Ok ([] : list Z, [] : list Z, v2_starved, false))
-    by (vm_compute; reflexivity).
-  exact IH.
-Qed.
-
-(* V2 borrow sweep: one erroring borrow in front of an unsafe one: the loop aborts before it, forever *)
-Definition v2_borrow_starved : v2_state := mkV2 [] 0 0 [mkPos 1 0 VErr; mkPos 2 0 VSeize].
-
-Lemma live_borrow_refuted : forall k, run_v2 (fun n => n) 5 k v2_borrow_starved = Ok v2_borrow_starved.
-Proof.
-  induction k as [|k IH]; [reflexivity|]. cbn [run_v2].
-  replace (sweep_v2 (fun n => n) 5 v2_borrow_starved) with (Ok ([] : list Z, [] : list Z, v2_borrow_starved, true))
-    by (vm_compute; reflexivity).
-  exact IH.
-Qed.
-
-(* with the loop wrapped per item (as the V1 borrow sweep is) the same list is served at once *)
-Lemma live_borrow_wrapped_ok :
-  exists r, sweep_one GB1 0 [mkPos 1 0 VErr; mkPos 2 0 VSeize] 2 2 0 5 = Ok r /\ r_seized r = [2].
-Proof. eexists. split; [vm_compute; reflexivity|reflexivity]. Qed.
